@@ -201,11 +201,12 @@ def site_nodes(fv, s):
     return found
 
 
-def abstract_statement(fv, s, st, reason):
+def probe_sites(fv, s, st, reason):
+    """statement / expression s cannot be executed as a whole; the sites it contains are evaluated each on its own, in a copy
+    of the state in which the names bound inside s (comprehension / loop variables) are arbitrary.  A site that cannot be
+    evaluated on its own either makes the function unanalysable (never silently dropped)."""
     sites = site_nodes(fv, s)
     if sites:
-        # the statement cannot be executed as a whole but contains sites: evaluate each site on its own, in a copy of the
-        # state in which the names bound inside the statement (comprehension / loop variables) are arbitrary
         for kind, what, node in sites:
             probe = st.copy()
             for n in assigned_names([s]):
@@ -228,6 +229,10 @@ def abstract_statement(fv, s, st, reason):
             except (Unsupported, EngineError) as e:
                 raise Unsupported('%s:%d: a site (%s %s) lies inside a statement that cannot be executed (%s) and cannot be '
                                   'evaluated on its own (%s)' % (fv.qual, node.lineno, kind, what, reason, e))
+
+
+def abstract_statement(fv, s, st, reason):
+    probe_sites(fv, s, st, reason)
     fv.abstracted.append(dict(line=s.lineno, stmt=ast.unparse(s).split('\n')[0][:100], reason=reason[:160]))
     if reads_only(s):
         havoc_names(fv, st, assigned_names([s]))
@@ -259,6 +264,7 @@ def slice_cond(fv, test, st):
         return fv.truthy(fv.ev(test, st, False))
     except (Unsupported, EngineError, z3.Z3Exception) as e:
         del fv.obligations[nf:]
+        probe_sites(fv, ast.Expr(value=test), st, 'condition: %s' % str(e)[:120])
         fv.abstracted.append(dict(line=test.lineno, stmt='condition ' + ast.unparse(test)[:90], reason=str(e)[:160]))
         if not reads_only(test):
             havoc_state(fv, st, assigned_names([ast.Expr(value=test)]))
@@ -288,9 +294,10 @@ def slice_loop(fv, s, st):
             nf = len(fv.obligations)
             from .comps import iter_source
             src = iter_source(fv, s.target, s.iter, st, False)     # the iterable is evaluated once, before the loop
-        except (Unsupported, EngineError, z3.Z3Exception):
+        except (Unsupported, EngineError, z3.Z3Exception) as e:
             del fv.obligations[nf:]
             src = None
+            probe_sites(fv, ast.Expr(value=s.iter), st, 'iterable of the loop: %s' % str(e)[:120])
     havoc_state(fv, st, names)
     body = st.copy(fresh_bool(fv))
     if src is not None:
@@ -310,9 +317,10 @@ def slice_loop(fv, s, st):
             nf = len(fv.obligations)
             c = fv.truthy(fv.ev(s.test, body, False))
             body.pc = simp_and(body.pc, c)
-        except (Unsupported, EngineError, z3.Z3Exception):
+        except (Unsupported, EngineError, z3.Z3Exception) as e:
             del fv.obligations[nf:]
             havoc_state(fv, body, names)
+            probe_sites(fv, ast.Expr(value=s.test), body, 'loop condition: %s' % str(e)[:120])
     ctl = LoopCtl()
     fv.loop_stack.append(ctl)
     fv.exec_block(s.body, body)
@@ -322,15 +330,28 @@ def slice_loop(fv, s, st):
 
 
 def slice_try(fv, s, st):
+    """body from the current state; each handler from an arbitrary state (the exception may have been raised anywhere in
+    the body).  Without else / finally the state after the statement is the join of the body's normal end and the handlers'
+    ends (selected by fresh booleans); `exceptional()` in a postcondition tells the handler paths apart."""
+    from .symexec import SV
     names = assigned_names([s])
-    b = st.copy()
+    if '__exc' not in st.env:
+        st.env['__exc'] = SV(z3.BoolVal(False), T.BOOL)
+    simple = not s.orelse and not s.finalbody
+    b = st.copy(fresh_bool(fv)) if simple else st.copy()
     fv.exec_block(s.body, b)
+    outs = [b]
     for h in s.handlers:
         hs = st.copy(fresh_bool(fv))
         havoc_state(fv, hs, names)
+        hs.env['__exc'] = SV(z3.BoolVal(True), T.BOOL)
         if h.name:
             hs.env[h.name] = fv.E.fresh(h.name, ANY)
         fv.exec_block(h.body, hs)
+        outs.append(hs)
+    if simple:
+        fv.merge_into(st, outs)
+        return
     for blk in (s.orelse, s.finalbody):
         if blk:
             x = st.copy(fresh_bool(fv))
@@ -344,8 +365,9 @@ def slice_with(fv, s, st):
         try:
             nf = len(fv.obligations)
             fv.ev(it.context_expr, st, False)
-        except (Unsupported, EngineError, z3.Z3Exception):
+        except (Unsupported, EngineError, z3.Z3Exception) as e:
             del fv.obligations[nf:]
+            probe_sites(fv, ast.Expr(value=it.context_expr), st, 'context manager: %s' % str(e)[:120])
             havoc_state(fv, st, set())
         if it.optional_vars is not None:
             for e in ast.walk(it.optional_vars):
